@@ -71,12 +71,17 @@ func (w *dagWorld) obs() string {
 	}
 	defer w.d.Mutex.Unlock()
 	cs := make([]string, w.nEnt)
+	present := make([]byte, w.nEnt)
 	for x := 0; x < w.nEnt; x++ {
 		c, _ := w.counts().Get(x)
 		cs[x] = strconv.Itoa(c)
+		present[x] = '0'
+		if w.mutexes().Has(x) {
+			present[x] = '1'
+		}
 	}
 
-	return statuses(w.actors) + " " + strings.Join(cs, ",")
+	return statuses(w.actors) + " " + strings.Join(cs, ",") + " " + string(present)
 }
 
 func parseEnts(s string) []int {
@@ -291,17 +296,32 @@ func (w *dagWorld) closeOut(emit func(a arrival, obs string)) {
 				sig("api", "DAGMutex."+p.op, "oracle", "blocked-at-end"))
 		}
 	}
-	if w.obs() != strings.Repeat("i", len(w.actors))+" "+strings.TrimSuffix(strings.Repeat("0,", w.nEnt), ",") {
+	if w.obs() != strings.Repeat("i", len(w.actors))+" "+strings.TrimSuffix(strings.Repeat("0,", w.nEnt), ",")+" "+strings.Repeat("0", w.nEnt) {
 		w.r.Fail("registry", "after every lock was released the DAGMutex still has registered entities: "+w.obs(),
 			sig("api", "DAGMutex", "oracle", "registry-not-empty"))
 	}
+}
+
+// dagHeader: every second case is checked against the composed model (registry of StarvingMutex monitors, `dagc`),
+// the others against the abstract-lock model (`dag`).
+var dagCases int
+
+func dagHeader(n, nEnt int) string {
+	dagCases++
+	if dagCases%2 == 1 {
+		return fmt.Sprintf("dagc %d %d", n, nEnt)
+	}
+
+	return fmt.Sprintf("dag %d %d", n, nEnt)
 }
 
 func runDagCase(r *hx.Run, sub uint64, n, nEnt int, prefix []arrival, maxOps int, wantNext bool) (next []arrival) {
 	r.Case(sub)
 	w := newDagWorld(r, n, nEnt)
 	defer retire(w.actors)
-	r.Line(fmt.Sprintf("dag %d %d", n, nEnt), "ok")
+	hdr := dagHeader(n, nEnt)
+	r.Line(hdr, "ok")
+	r.Count("dag-model:" + strings.Fields(hdr)[0])
 	var key []string
 	emit := func(a arrival, obs string) {
 		r.Line(fmt.Sprintf("d %d %s %s %s", a.t, a.op, a.arg, obs), "ok")
@@ -368,7 +388,9 @@ func randomDag(r *hx.Run, rng *hx.Rng, sub uint64) {
 	r.Case(sub)
 	w := newDagWorld(r, n, nEnt)
 	defer retire(w.actors)
-	r.Line(fmt.Sprintf("dag %d %d", n, nEnt), "ok")
+	hdr := dagHeader(n, nEnt)
+	r.Line(hdr, "ok")
+	r.Count("dag-model:" + strings.Fields(hdr)[0])
 	var key []string
 	emit := func(a arrival, obs string) {
 		r.Line(fmt.Sprintf("d %d %s %s %s", a.t, a.op, a.arg, obs), "ok")
